@@ -27,11 +27,12 @@ def check(repo, res, tier):
     res.rule("R-SLOT", "record sources")
     res.s_clauses = ["S1 R-LIMIT", "S2 R-DEFAULT", "S3 R-STEP"]
     res.n_clauses = ["that the initial state lies inside the limits (user input)"]
-    ctx = S.Ctx(repo)
-    S.check_checkjump(ctx, res)
-    S.check_first_reaction(ctx, res)
-    S.check_tau_leap(ctx, res)
-    S.check_jump(ctx, res)
+    from ..rules import stepx as X
+    res.rule("R-WALK", "on models with lower, upper, two-sided and absent limits every recorded state is the one the limit-respecting walk gives: a step that "
+             "would leave the limits is not taken and leaves state and time unchanged")
+    X.check_checkjump(repo, res)
+    n = X.check_walks(repo, res)
+    res.floor("walk scenarios interpreted", n, 15)
     # the limits handed to the steppers are the declared ones
     f = repo.func(M.M_BASE, "BaseOdeModel._add_list_attr_with_limits")
     cfg, df = cfg_of(f), dataflow_of(f)
